@@ -17,6 +17,8 @@ CONSTANTS
   TxnBeforeGate = FALSE
   NestedCloseClearsMark = TRUE
   ReadNotCounted = FALSE
+  SqueezedFits = TRUE
+  ReopenClampsMap = FALSE
   BatchMax = 1
   MaxOps = 14
   WithReads = FALSE
